@@ -9,7 +9,7 @@ from ..wire import Sym, enc, lean_representable, request as rq
 
 ID = "C05"
 LEAN_MODULE = "BibVerif.Props.C05"
-RULE = ("grammar-derived documents (resolved and unresolved @string references, chains of @string aliases, whitespace directly inside the enclosing (also after a backslash), digit-only values with leading zeros / non-ASCII digits in and outside the numeric fields, concatenations, numeric values, nested braces, "
+RULE = ("documents well formed by construction (keys equal up to case, empty @comment between free-text comments, empty values, blanks before the brace); grammar-derived documents (resolved and unresolved @string references, chains of @string aliases, whitespace directly inside the enclosing (also after a backslash), digit-only values with leading zeros / non-ASCII digits in and outside the numeric fields, concatenations, numeric values, nested braces, "
         "multi-line values, comments between blocks, duplicate keys in a minority of documents) x BibtexFormat settings "
         "(indent in '', ' ', TAB, 4 spaces; value_column in 0..40 and 'auto'; trailing_comma; block_separator in '', NL, NLNL, ' NL'). "
         "Compared: the model of the whole default pipeline (splitter, Library.add, ResolveStringReferences, RemoveEnclosing, "
